@@ -125,6 +125,138 @@ let c17 toks =
       | Err _ -> "error") res in
   if outs = [] then "-" else String.concat ";" outs
 
+
+(* ---- C18, text of the frames: Tui/Views.v through Tui/Frames.v (TuiFrames.frame_body).
+   A frame op of a c18 line carries, after `=`, what the application model does not keep and the reference
+   screens the harness drew of the real TuiApp (harness/htui/src/m_c18.rs `text_reference`):
+     F:<w>:<h>=<hops>/<target>/<draw>+<draw>..
+     hops   = hop.hop..  | -        hop = <ttl>r<total_recv>{a<addr id>x<count>}   (addresses in IndexMap order)
+     target = hop | -               (Hop of selected_hop_or_target when nothing is selected)
+     draw   = <t|w>,a<k|0-2>,i<k|0-6>,g<0-3>,m<k|n|N>,d<k|0|1>,s<k|n|ROW>   (k: as the application state has it)
+   The output starts with the "Target: source -> destination" line of the header.
+   The seeded resolver / GeoIP answers are functions of the address id (m_c18.rs seed_sentinel), replicated here. *)
+module V = TuiViews
+module F = TuiFrames
+
+let lit = function
+  | 1 -> "**Hidden**" | 2 -> "No response" | 3 -> "Failed" | 4 -> "Timeout" | 5 -> "Error: no addr for index "
+  | 6 -> "not found" | 7 -> "awaited" | 8 -> "not enabled" | 10 -> "\n" | 11 -> " " | 12 -> " [" | 13 -> "]"
+  | 14 -> " (" | 15 -> ")" | 16 -> ": " | 17 -> "<" | 18 -> ">" | 19 -> " of " | 20 -> ", " | 21 -> "AS "
+  | 22 -> "Name" | 23 -> "Info" | 24 -> "Host" | 25 -> "Geo" | 26 -> "Pos" | 27 -> "Ext" | 28 -> "none" | 29 -> "Hop"
+  | 30 -> "GeoIp not enabled" | 31 -> "No GeoIp data for hop" | 32 -> "Multiple GeoIp locations for hop"
+  | 33 -> "Target" | 34 -> " -> "
+  | n -> Printf.sprintf "<lit%d>" n
+
+let geo_group a = a / 4 * 4
+let lat g = -70.25 +. 1.5 *. float_of_int g
+let long g = -170.25 +. 3.5 *. float_of_int g
+let fl x = if Float.is_integer x then Printf.sprintf "%.0f" x else Printf.sprintf "%.2f" x
+let sent_dns a : V.dns_entry = match a mod 12 with
+  | 5 -> V.DNotFound (Some false) | 7 -> V.DResolved None | 8 -> V.DResolved (Some true) | 9 -> V.DNotFound None
+  | 10 -> V.DFailed | 11 -> V.DPending | _ -> V.DResolved (Some false)
+let sent_geo a = if a mod 3 = 1 then None else Some (z_of_int (geo_group a), a mod 3 = 0)
+
+let txt as_mode (f : V.frag) : string =
+  let i = int_of_z in
+  match f with
+  | V.FLit n -> lit (i n)
+  | V.FNum n -> string_of_int (i n)
+  | V.FPct (n, d) -> Printf.sprintf "%.1f%%" (float_of_int (i n) /. float_of_int (i d) *. 100.)
+  | V.FAddr (_, a) -> Printf.sprintf "%d.77.77.77" (100 + i a)
+  | V.FHost (_, a) -> Printf.sprintf "hq%dz.example.net" (i a)
+  | V.FAs (_, a, k) ->
+    let a = i a in
+    let asn = Printf.sprintf "AS64%03d" (500 + a) in
+    (match i k with
+     | 0 -> (match as_mode with
+         | 1 -> asn
+         | m -> Printf.sprintf "%s [%cQ%dZ]" asn (match m with 2 -> 'P' | 3 -> 'C' | 4 -> 'R' | 5 -> 'L' | _ -> 'N') a)
+     | 10 -> Printf.sprintf "%s NQ%dZ" asn a
+     | _ -> Printf.sprintf "PQ%dZ RQ%dZ LQ%dZ" a a a)
+  | V.FGeo (_, a, k) ->
+    let a = i a in
+    let g = geo_group a and located = a mod 3 = 0 in
+    (match i k with
+     | 1 -> Printf.sprintf "GC%dZ, GD%dZ, GK%dZ" g g g
+     | 2 -> Printf.sprintf "GC%dZ, GS%dZ, GL%dZ, GN%dZ" g g g g
+     | 3 -> if located then Printf.sprintf "%s, %s (~%dkm)" (fl (lat g)) (fl (long g)) (300 + g) else Printf.sprintf "0, 0 (~%dkm)" (300 + g)
+     | _ -> if located then Printf.sprintf "%s, %s (~%dkm)" (fl (lat g)) (fl (long g)) (300 + g) else "0, 0 (~0km)")
+  | V.FLoc (_, name) ->
+    let g = i name in
+    Printf.sprintf "GC%dZ, GS%dZ, GL%dZ, GN%dZ [%s, %s ~%dkm]" g g g g (fl (lat g)) (fl (long g)) (300 + g)
+  | V.FSrc -> "<src>" (* address, or address and host name: the resolver cache decides (m_c18.rs text_reference) *)
+  | V.FDest t -> Printf.sprintf "%d.77.77.77 (target%d.example)" (190 + i t) (i t)
+
+(* lines trimmed, trailing empty lines dropped, ' ' -> '_', '~' -> '$', joined by '~' *)
+let canon (s : string) : string =
+  let ls = List.map String.trim (String.split_on_char '\n' s) in
+  let rec drop = function "" :: r -> drop r | l -> l in
+  let ls = List.rev (drop (List.rev ls)) in
+  String.map (function ' ' -> '_' | c -> c)
+    (String.concat "~" (List.map (String.map (function '~' -> '$' | c -> c)) ls))
+
+let parse_vhop (s : string) : V.vhop =
+  (* <ttl>r<recv>{a<id>x<cnt>} *)
+  match String.split_on_char 'a' s with
+  | head :: addrs ->
+    (match String.split_on_char 'r' head with
+     | [t; r] ->
+       { h_ttl = zi t; h_total_recv = zi r;
+         h_info = List.map (fun x -> match String.split_on_char 'x' x with [a; c] -> (zi a, zi c) | _ -> failwith "addr") addrs }
+     | _ -> failwith "vhop")
+  | [] -> failwith "vhop"
+
+let parse_draw (s : string) : F.draw * int =
+  let get c = List.find (fun t -> String.length t > 0 && t.[0] = c) (String.split_on_char ',' s) in
+  let v c = let t = get c in String.sub t 1 (String.length t - 1) in
+  let opt f x = if x = "k" then None else Some (f x) in
+  let view = List.hd (String.split_on_char ',' s) in
+  let asm = v 'i' in
+  ({ F.d_map = (view = "w");
+     d_addr_mode = opt zi (v 'a');
+     d_as_info = opt (fun x -> x <> "0") asm;
+     d_max_addrs = opt (fun x -> if x = "n" then None else Some (zi x)) (v 'm');
+     d_details = opt (fun x -> x = "1") (v 'd');
+     d_sel = opt (fun x -> if x = "n" then None else Some (zi x)) (v 's') },
+   (if asm = "k" || asm = "0" then 1 else int_of_string asm))
+
+let geo_mode_of (s : string) : int =
+  let t = List.find (fun t -> String.length t > 0 && t.[0] = 'g') (String.split_on_char ',' s) in
+  int_of_string (String.sub t 1 (String.length t - 1))
+
+let stable_rev_order (l : (z * z) list) = List.rev (List.stable_sort (fun (_, c1) (_, c2) -> compare (int_of_z c1) (int_of_z c2)) l)
+
+(* the text of the reference screens of one frame op: "!<draw>!<draw>.." *)
+let frame_text (a : app) (nt : int) (op : string) : string =
+  match String.index_opt op '=' with
+  | None -> ""
+  | Some i ->
+    let suffix = String.sub op (i + 1) (String.length op - i - 1) in
+    (match String.split_on_char '/' suffix with
+     | [hs; tg; ds] ->
+       let hops = if hs = "-" then [] else List.map parse_vhop (String.split_on_char '.' hs) in
+       let target = if tg = "-" then { h_ttl = Z0; h_total_recv = Z0; h_info = [] } else parse_vhop tg in
+       "!" ^ canon (String.concat "" (List.map (txt 1) (F.frame_target_line a))) ^
+       String.concat "" (List.map (fun d ->
+           let (dr, as_mode) = parse_draw d in
+           let o = { F.o_geo_mode = z_of_int (geo_mode_of d); o_mmdb = true;
+                     o_dns = (fun _ a -> sent_dns (int_of_z a)); o_geo = (fun a -> sent_geo (int_of_z a)); o_order = stable_rev_order } in
+           let render l = canon (String.concat "" (List.map (txt as_mode) l)) in
+           "!" ^ (match F.frame_body a (z_of_int nt) o dr hops target with
+               | Ok V.BError -> "?"
+               | Ok V.BSplash -> "-"
+               | Ok (V.BChart _) -> "chart"
+               | Ok (V.BMap (info, marks)) ->
+                 (* the marks are graphics: number of pins, and whether a selection box is drawn *)
+                 render info ^ "#" ^ string_of_int (List.length (List.filter (function V.MPin _ -> true | _ -> false) marks))
+                 ^ (if List.exists (function V.MSelBox _ -> true | _ -> false) marks then "b" else "-")
+               | Ok (V.BTable rows) ->
+                 let n = List.length rows in
+                 String.concat "|" (List.mapi (fun k (l, h) -> render l ^ (if k + 1 < n then "^" ^ zs h else "")) rows)
+               | Fault f -> "fault:" ^ fault_name f
+               | Err _ -> "shape_mismatch")) (String.split_on_char '+' ds))
+     | _ -> "")
+
 (* C18 projection: the privacy value after every op; at a frame also what the Host cell of every row
    of the selected flow shows (H hidden, N no response, V normal) *)
 let c18 toks =
@@ -138,7 +270,7 @@ let c18 toks =
           let hs = match hops_for_flow a.data a.a_sel.sel_flow with Ok h -> h | _ -> [] in
           let cls = String.concat "" (List.map (fun h ->
               match int_of_z (host_cell_class p h.hs_ttl h.hs_addrs) with 0 -> "H" | 1 -> "N" | _ -> "V") hs) in
-          oi p ^ ":" ^ (if cls = "" then "-" else cls)
+          oi p ^ ":" ^ (if cls = "" then "-" else cls) ^ frame_text a (List.length w0) s
         end else oi p
       | Fault f -> "fault:" ^ fault_name f
       | Err _ -> "error") (zip ops res) in
